@@ -1266,17 +1266,27 @@ class Wtp:
         assert isinstance(text, str)
         # print("PREPROCESS_TEXT: {!r}".format(text))
 
-        def _nowiki_sub_fn(m: re.Match) -> CookieChar:
-            """This function escapes the contents of a <nowiki> ... </nowiki>
-            pair."""
+        def _sub_fn(m: re.Match) -> str:
+            """Handles one comment, <nowiki> ... </nowiki> pair or
+            <nowiki />, whichever starts first in the text."""
             nowiki_content = m.group(1)
-            return self._save_value("N", (nowiki_content,), True)
+            if nowiki_content is not None:
+                # escape the contents of the pair
+                return self._save_value("N", (nowiki_content,), True)
+            if m.group(0).endswith("-->"):
+                return ""  # comment (and the newline before it)
+            return MAGIC_NOWIKI_CHAR
 
+        # A single left-to-right pass: a <nowiki> inside a comment is part of
+        # the comment, and a <!-- inside <nowiki> is nowiki content.  The tag
+        # name is matched in ASCII only (re.A): with Unicode case folding
+        # "nowiki" would also match U+212A KELVIN SIGN / U+0131 DOTLESS I and
+        # \s would match U+00A0.
         text = re.sub(
-            r"(?si)<nowiki\s*>(.*?)</nowiki\s*>", _nowiki_sub_fn, text
+            r"(?sia)\n?<!--.*?-->|<nowiki\s*>(.*?)</nowiki\s*>|<nowiki\s*/>",
+            _sub_fn,
+            text,
         )
-        text = re.sub(r"(?si)<nowiki\s*/>", MAGIC_NOWIKI_CHAR, text)
-        text = re.sub(r"(?s)\n?<!--.*?-->", "", text)
         # print("PREPROCESSED_TEXT: {!r}".format(text))
         return text
 
